@@ -57,7 +57,8 @@ def readableN (σ : Store) : Nat → Value → Bool
 /-- The values property C16 is about. Vectors may nest, but not cyclically (a vector that
 contains itself prints forever): since a chain of nested non-empty vectors without a cycle has at
 most as many links as the store has cells, "nesting depth at most `σ.vecs.size`" is exactly
-"finite". The inductive characterisation is `ReadableI` below. -/
+"finite": `Readable σ v ↔ ReadableI σ v` for the inductive predicate below
+(`C16.readable_iff_inductive`). -/
 def Readable (σ : Store) (v : Value) : Prop := readableN σ σ.vecs.size v = true
 
 instance (σ : Store) (v : Value) : Decidable (Readable σ v) := by unfold Readable; infer_instance
